@@ -27,6 +27,8 @@ def run(ctx):
     V.v10_param_map(ctx)
     V.v11_provider_results_not_written(ctx)
     V.v13_dictionaries_kept_as_given(ctx)
+    V.v15_map_kind_per_constructor(ctx)
+    ctx.floor("V15", 4)
     ctx.floor("V13", 6)
     ctx.floor("V10", 3)
     # the recurrences themselves: provider, size, map and operation of each constructor
